@@ -28,7 +28,7 @@ def q(tier, quick, thorough):
 
 
 def recipe(c: Check):
-    c.build(["Properties/C14.vo", "Corr/C14.vo"], harness=["c14"], units=[])
+    c.build(["Properties/C14.vo", "Corr/C14.vo"], harness=["c14"], units=["t14"])
     c.obligations("C14")
     st = c.run_driver("backoff", q(c.tier, 1200, 12000), shards=q(c.tier, 8, 16))
     ctr = c.cov.get("coq_counters", {}).get("backoff", {})
